@@ -29,6 +29,8 @@ THEOREMS = [
     "HedVerif.C15.exact_any",
     "HedVerif.C15.exact_none",
     "HedVerif.C15.exact_opt",
+    "HedVerif.C15.exact_optional_equiv",
+    "HedVerif.C15.exact_optional_counterexample",
     "HedVerif.C15.wildcard",
     "HedVerif.C15.sibling_order",
     "HedVerif.C15.sibling_order_partial",
@@ -445,6 +447,132 @@ def dup_variants(rng, top, parents, copies, cap=40):
     return out
 
 
+# ------------------------------------------------------------------------------ {required: optional}
+
+def opt_render(spec):
+    k = spec[0]
+    if k == "bare":
+        return spec[1]
+    if k == "quoted":
+        return '"' + spec[1] + '"'
+    if k == "star":
+        return spec[1] + "*"
+    if k == "wild":
+        return spec[1]
+    return f"{opt_render(spec[1])} {'&&' if k == 'and' else '||'} {opt_render(spec[2])}"
+
+
+def opt_sets(im, spec, group):
+    """the sets of direct children of `group` that one same-level match of the optional part can consist of
+    (documented meaning: a term is a tag of this group, `??` a tag, `???` a sub-group, `?` any child)"""
+    k = spec[0]
+    kids = list(group.children)
+    tags = [c for c in kids if isinstance(c, im.HedTag)]
+    if k == "bare":
+        return {frozenset([id(c)]) for c in tags if spec[1].casefold() in c.tag_terms}
+    if k == "quoted":
+        return {frozenset([id(c)]) for c in tags if str(c).casefold() == spec[1].casefold()}
+    if k == "star":
+        return {frozenset([id(c)]) for c in tags if c.short_tag.casefold().startswith(spec[1].casefold())}
+    if k == "wild":
+        pick = kids if spec[1] == "?" else tags if spec[1] == "??" else [c for c in kids if c not in tags]
+        return {frozenset([id(c)]) for c in pick}
+    a, b = opt_sets(im, spec[1], group), opt_sets(im, spec[2], group)
+    if k == "or":
+        return a | b
+    return {x | y for x in a for y in b if not (x & y)}
+
+
+def optional_expected(im, hs, req, spec):
+    """`{r1 && r2..: opt}` from the documentation: some parenthesised group whose children are exactly distinct
+    tags for the required terms (at that level) and, optionally, one same-level match of the optional part"""
+    import itertools
+    for g in hs.get_all_groups():
+        if not g.is_group:
+            continue
+        tags = [c for c in g.children if isinstance(c, im.HedTag)]
+        allk = frozenset(id(c) for c in g.children)
+        osets = None
+        for pick in itertools.permutations(tags, len(req)):
+            if all(w.casefold() in t.tag_terms for w, t in zip(req, pick)):
+                rest = allk - frozenset(id(t) for t in pick)
+                if not rest:
+                    return True
+                if osets is None:
+                    osets = opt_sets(im, spec, g)
+                if rest in osets:
+                    return True
+    return False
+
+
+def optional_check(ctx, im, req, spec, s):
+    hs = im.hed(s)
+    r = " && ".join(req)
+    o = opt_render(spec)
+    q = "{" + f"{r}: {o}" + "}"
+    q2 = "{" + f"{r}:" + "} || {" + f"{r} && ({o}):" + "}"
+    case = {"kind": "optional", "req": req, "opt": spec, "q": q, "hed": s}
+    st, h = im.compile(q)
+    st2, h2 = im.compile(q2)
+    if st != "ok" or st2 != "ok":
+        ctx.violation("plain-query-rejected", {"kind": "parse", "q": q if st != "ok" else q2}, st)
+        return None
+    got, got2 = bool(h.search(hs)), bool(h2.search(hs))
+    want = optional_expected(im, hs, req, spec)
+    ctx.evaluations += 2
+    ctx.count("optional-cases")
+    ctx.count("optional-match" if want else "optional-no-match")
+    if got != want:
+        ctx.violation("exact-optional-same-level", case, {"got": got, "documented": want})
+    if got != got2:
+        ctx.violation("exact-optional-equiv", dict(case, q2=q2), {q: got, q2: got2})
+    return q
+
+
+def optional_oracle(ctx, im, rng, n):
+    """`{A: B}`: groups made of the required tags plus one extra child that is the optional tag itself, a sub-group
+    holding it at depth 1-3, a sub-group holding it among others, or two extra children; mostly no group that
+    matches the required part alone.  Checked against the documented meaning (computed from the annotation) and
+    against `{A:} || {A && B:}`; the pairs also go through the model correspondence."""
+    pool = [t for t in DUP_POOL if im.hed(t).get_all_tags()[0].tag_terms]
+    term = {t: im.hed(t).get_all_tags()[0].tag_terms[-1] for t in pool}
+    pairs = []
+    for _ in range(n):
+        tags = rng.sample(pool, 7)
+        nreq = rng.choice([1, 1, 2])
+        R, O, X, Y = tags[:nreq], tags[nreq], tags[nreq + 1], tags[nreq + 2]
+        req = [term[t] for t in R]
+        r = rng.random()
+        spec = ["bare", term[O]] if r < 0.3 else ["quoted", O] if r < 0.4 else ["star", O[:3].lower()] if r < 0.5 else \
+            ["and", ["bare", term[O]], ["bare", term[X]]] if r < 0.62 else \
+            ["or", ["bare", term[O]], ["bare", term[X]]] if r < 0.74 else \
+            ["and", ["bare", term[O]], ["wild", "???"]] if r < 0.8 else \
+            ["wild", rng.choice(["?", "??", "???"])]
+
+        def deep(x, d):
+            for _ in range(d):
+                x = [x]
+            return x
+        shapes = [R + [O], R + [deep(O, 1)], R + [deep(O, 2)], R + [deep(O, 3)], R + [[O, X, Y]], R + [[X, [O]]],
+                  R + [O, X], R + [O, [O]], R + [[O], X], R + [X], R + [[X]], R + [O, O], R + [X, O], list(R)]
+        weights = [3, 4, 3, 2, 3, 2, 2, 2, 2, 1, 1, 1, 2, 1]
+        top = []
+        for _ in range(rng.choice([1, 1, 2, 3])):
+            g = list(rng.choices(shapes, weights)[0])
+            rng.shuffle(g)
+            w = rng.random()
+            top.append(g if w < 0.6 else [Y, g] if w < 0.8 else [[g]])
+        if rng.random() < 0.4:
+            top.append(rng.choice([O, X, [O], R[0]]))
+        rng.shuffle(top)
+        s = tree_str(top)
+        q = optional_check(ctx, im, req, spec, s)
+        if q:
+            pairs.append((q, s))
+            ctx.case((q, s), nontrivial=True)
+    check_pairs(ctx, im, pairs, "optional")
+
+
 def dup_signature(im, q):
     """the family of finding 'has_same_tags compares groups by equality': only on a tree that has that code, only
     for queries that produce results without children (`~`, `@`), only from the equal-sub-groups generator"""
@@ -698,6 +826,7 @@ def run(ctx):
     term_oracle(ctx, im, rng, 150 if quick else 3000)
     pair_oracle(ctx, im, rng, 300 if quick else 6000)
     dup_oracle(ctx, im, rng, 60 if quick else 1500)
+    optional_oracle(ctx, im, rng, 400 if quick else 8000)
     law_oracle(ctx, im, rng, *((220, 5) if quick else (4000, 6)))
     service_check(ctx, im, rng, 12 if quick else 150)
     # report the smallest divergence / violation first
@@ -720,6 +849,11 @@ def replay(ctx, rec):
     elif kind == "pair":
         check_pairs(ctx, im, [(case["q"], case["hed"])], "replay")
         print("replayed", json.dumps(case), "violations:", len(ctx.violations), "disagreements:", len(ctx.disagreements))
+    elif kind == "optional":
+        optional_check(ctx, im, case["req"], case["opt"], case["hed"])
+        check_pairs(ctx, im, [(case["q"], case["hed"])], "replay")
+        print("replayed", json.dumps(case), "violations:", [v["clause"] for v in ctx.violations],
+              "disagreements:", len(ctx.disagreements))
     elif kind == "order":
         st, h = im.compile(case["q"])
         r1, r2 = (bool(h.search(im.hed(case[k]))) for k in ("hed", "hed2"))
